@@ -520,9 +520,19 @@ def _canon(t):
     k = t[0]
     if k == "phi" and len(t) == 4:
         g, a, b = t[1], t[2], t[3]
-        # (x if c == 1 else c * x) == c * x
-        if is_app(g, "==") and len(g) == 4 and g[3] == K(1) and is_app(b, "*") and len(b) == 4 and b[2] == g[2] and b[3] == a:
-            return _canon(b)
+        # python-level negated test: (a if not g else b) is (b if g else a); `x != k` likewise
+        while is_app(g, "not") and len(g) == 3:
+            g, a, b = g[2], b, a
+        if is_app(g, "!=") and len(g) == 4:
+            g, a, b = app("==", g[2], g[3]), b, a
+        # a special case that the general branch subsumes: (A if x == k else B) is B when B[x := k] is A
+        # e.g. (d if c == 1 else c * d) == c * d
+        if is_app(g, "==") and len(g) == 4 and (is_const(g[3]) or is_const(g[2])) and not (is_const(g[3]) and is_const(g[2])):
+            x, kv = (g[2], g[3]) if is_const(g[3]) else (g[3], g[2])
+            if isinstance(kv[1], int) and not isinstance(kv[1], bool):
+                from .terms import substitute as _subst
+                if _canon(_subst(b, {x: kv})) == _canon(a):
+                    return _canon(b)
         return ("phi", _canon(g), _canon(a), _canon(b))
     if k == "app":
         op = t[1]
